@@ -93,6 +93,13 @@ pub fn check_tape(tape: &[u16], rc: &mut RCase, feat: &Feat) -> Result<(), Failu
             return Ok(());
         }
         Err(e) => {
+            if x.redeemer_conflict {
+                // a redeemer written for a policy whose mint and burn cancel out (or two different
+                // redeemers for one item): what the transaction should be is not defined
+                rc.label("excluded:redeemer_for_cancelled_policy");
+                rc.record(key, false, || json!(null));
+                return Ok(());
+            }
             let sig = format!("err_in_fragment:{}", e.stage());
             return Err(Failure::new(sig, e.describe(), rendered()));
         }
